@@ -424,6 +424,9 @@ def decode_loop(ctx):
     lines = {ci: [] for ci in range(len(LOOP_CONFIGS))}
     nact = 0
     for e in ev:
+        if e["res"].get("t") != "loop":          # the harness call itself failed (exception, time limit, purity)
+            bad_b.add(e["id"])
+            continue
         got = e["res"]["v"]
         for x in got:
             hist[x["a"]] = hist.get(x["a"], 0) + 1
@@ -587,6 +590,9 @@ def viewer(ctx):
     ev = ctx.replay(V)
     bad_b, lines, nact = set(), {ci: [] for ci in range(len(configs))}, 0
     for e in ev:
+        if e["res"].get("t") != "screen":
+            bad_b.add(e["id"])
+            continue
         got = e["res"]["v"]
         if len(got) != len(e["steps"]) or e["res"].get("err"):
             bad_b.add(e["id"])
